@@ -122,6 +122,8 @@ pub enum RotPlan {
     SwapPayloads,
     /// the CRC back-patch was lost: CRC fields still zero
     LostCrcPatch,
+    /// declared sizes (central and local) set to boundary values, data and CRC untouched
+    SizeFields,
 }
 
 #[derive(Serialize, Deserialize, Clone, Debug, PartialEq)]
@@ -180,9 +182,6 @@ impl Scenario for Bitrot {
             if !matches!(e.method, 0 | 8 | 12 | 93) {
                 e.method = r.pickc(&METHODS);
             }
-            if e.content.len() == 0 {
-                e.content = Content::Rand { len: r.range(1, 40), seed: r.next_u64() };
-            }
             e.crc_lie = None;
         }
         if plan_kind == 7 {
@@ -215,7 +214,7 @@ impl Scenario for Bitrot {
             6 => RotPlan::TruncatedPayload { cut: r.range(1, 50) },
             7 => RotPlan::SwapPayloads,
             8 => RotPlan::LostCrcPatch,
-            _ => RotPlan::AllFlips { range: None },
+            _ => RotPlan::SizeFields,
         };
         let case = RotCase { layout: l, target, plan, read: gen_policy_short(&mut r), bufs: gen_bufs(&mut r) };
         serde_json::to_value(case).unwrap_or(Value::Null)
@@ -390,6 +389,27 @@ impl Scenario for Bitrot {
                     }
                     *ctx.fired.entry("SwapPayloads".into()).or_insert(0) += 1;
                     eval(&img, "payloads of entries 0 and 1 swapped".into(), true, true, ctx)?;
+                }
+                RotPlan::SizeFields => {
+                    if ent.z64_central & 3 != 0 || ent.z64_local || ent.dd != 0 {
+                        return Ok(()); // the 32-bit fields are not where the sizes live
+                    }
+                    let cpos = info.central_start as usize;
+                    let lpos = info.header_start as usize;
+                    for which in 0..2 {
+                        for val in [0u32, 1, info.usize as u32 + 1, (info.usize as u32).wrapping_sub(1), info.csize as u32 + 7, 0xffff] {
+                            let mut img = img0.clone();
+                            // which 0: uncompressed size (central +24, local +22); 1: compressed size (central +20, local +18)
+                            let (co, lo) = if which == 0 { (24, 22) } else { (20, 18) };
+                            img[cpos + co..cpos + co + 4].copy_from_slice(&val.to_le_bytes());
+                            img[lpos + lo..lpos + lo + 4].copy_from_slice(&val.to_le_bytes());
+                            if img == img0 {
+                                continue;
+                            }
+                            *ctx.fired.entry("SizeField".into()).or_insert(0) += 1;
+                            eval(&img, format!("{} size fields set to {val}", if which == 0 { "uncompressed" } else { "compressed" }), true, true, ctx)?;
+                        }
+                    }
                 }
                 RotPlan::LostCrcPatch => {
                     if info.crc == 0 {
